@@ -298,7 +298,7 @@ func c26(c *vc.Ctx) {
 		var bsrc, bdirs []string
 		var bidx []int
 		for i, t := range batch {
-			need := c26NeedsDir(t.Src)
+			need := c26NeedsDir(t.Src) || t.Kind != "g" // corpus programs glob and touch files: always a directory of their own
 			ires[i] = c26Interp(t.Src, mk("i", i, need))
 			if ires[i].ParseErr != "" {
 				if t.Kind == "g" {
@@ -344,7 +344,7 @@ func c26(c *vc.Ctx) {
 			bres[i], judged[i] = r, true
 		}
 		if len(bsrc) > 0 {
-			rs, ok := c26BashBatch(bsrc, bdirs, 30*time.Minute)
+			rs, ok := c26BashBatch(bsrc, bdirs, 5*time.Minute)
 			if !ok {
 				c.Count("batch_fallbacks", 1)
 				for j, i := range bidx {
@@ -417,7 +417,7 @@ func c26(c *vc.Ctx) {
 		}
 		return fails
 	}
-	complete := vc.RunBatch(c, vc.Pick(c, 200, 400), gen, run)
+	complete := vc.RunBatch(c, 100, gen, run)
 	seedMu.Lock()
 	if len(seedDisagree) > 0 {
 		c.Extra["seeds_disagreeing_unmutated_examples"] = seedDisagree[:min(len(seedDisagree), 40)]
